@@ -15,6 +15,9 @@ PROP = dict(
         "(consulted only when the XOR of the row hashes is zero) matches columns by name",
         "UnionSet.Hash XORs the members' Hash(0) of all buckets; a bucket key of a relation subset is the joined sorted "
         "heading (two headings with the same join cannot both be buckets of a canonical union set)",
+        "Rep identifies a one-element multipleValues of a Dict with the plain value (a key holds a list of values): that "
+        "Dict.Without/With/Where/Map re-normalise a key going from several values to one is checked by the correspondence "
+        "run only (stratum trans/dict)",
         "the construction paths of the generator (where/=>/with/without/++/offset/+>/|/&/&~/<&>/projection) reach the "
         "stated denotation: each pair case also compares the enumerator-level canon of both results with it",
     ],
@@ -24,6 +27,11 @@ PROP = dict(
         "targets: Lit.genLit depth <= 3 over a 3-letter alphabet, integers -2..3, attribute names a,b,c,x; negative pairs "
         "are mutants of the target (leaf change, wrap/unwrap, regrouping of nested sets, offset shift, string<->bytes); "
         "superimposed sequences (KF-superimposed) are not constructed",
+        "transition stratum (144 cases per quick run, every family on every run): a dict key going from 3->2, 2->1, 1->0 "
+        "values (and 3->1, 2->0; last key -> {}) via without / &~ / where / (| then &~) / => remapping, from relation-literal, "
+        "set-of-tuples, with- and (d1 | d2 | d3) spellings; relations losing rows (3->2->1->0) or columns (-> 1); union sets "
+        "losing one of two buckets (the rest must be the plain string/array/bytes/dict/relation/generic set) - each compared "
+        "with the literal spelling of the result under all pair observables",
         "byte-array-shaped sets with gaps are classed KF-bytes-holes (asBytes fills a gap with 0); every other case is "
         "classed good with all observables (=, {a}={b}, count, dict lookup, repr, <, >, operator context, enumerator "
         "denotation) - the classes KF-bytes-less, KF-less-inconsistent, KF-union-less-panic, KF-string-with-fallback and "
